@@ -7,7 +7,10 @@ def plan(tier):
     quick = tier == "quick"
 
     def params(i, jit):
-        return {"fault_config": FAULT_CONFIGS[i % 4], "max_ops": 12}
+        p = {"fault_config": FAULT_CONFIGS[i % 4], "max_ops": 12}
+        if not quick and i % 3 == 0:
+            p.update(max_ops=18, max_faults=2)  # longer histories, up to two faults per op
+        return p
 
     def evidence(agg, det, tier, seed, wall, t_main, n_new, replays, unprocessed):
         return _common_evidence(
